@@ -81,7 +81,7 @@ class P(Prop):
             "features holding values other than 0/1 (2, 0.5, NaN, 1.0, True); segmentation: for 1..3 tested features and both modes every "
             "combination of {below, equal, above, NaN} per feature (as one track and as single-observation tracks), random dyadic values with "
             "NaN, scalar (non-list) arguments, more thresholds than features, then split on the produced marker; malformed stream: fewer "
-            "thresholds than features (IndexError / float-max default, compared with the model, no claim by the property). "
+            "thresholds than features (IndexError / float-max default: run on both sides, no claim by the property, not compared). "
             "non-trivial = split with at least one marker on a track of >= 2 observations, or segmentation with at least one non-NaN value")
 
     def setup(self):
@@ -256,11 +256,23 @@ class P(Prop):
         return {"markers": "" if r == "_" else r}
 
     def compare(self, case, impl_out, model_out):
+        if not self.in_domain(case):
+            # fewer thresholds than features: the property promises nothing, so a change of behaviour there
+            # (e.g. repairing the `>=` guard) must not be reported; the model's IndexError / float-max branch is
+            # still exercised and any crash of the model side would surface as a driver failure
+            return None
         if "err" in impl_out or "err" in model_out:
             if impl_out.get("err") == model_out.get("err"):
                 return None
             return "impl=%s model=%s" % (impl_out, model_out)
-        return Prop.compare(self, case, impl_out, model_out)
+        # canonicalisation: the statement leaves open whether an empty trailing piece is emitted when the last
+        # observation is marked, and says nothing about the pieces' uids (not compared)
+        def canon(o):
+            o = {k: v for k, v in o.items() if k != "uids"}
+            if o.get("pieces") and o["pieces"][-1] == []:
+                o["pieces"] = o["pieces"][:-1]
+            return o
+        return Prop.compare(self, case, canon(impl_out), canon(model_out))
 
     # ---------------------------------------------------------------- oracle (transfer)
     def spec(self, case, out):
